@@ -188,6 +188,8 @@ inductive Ev
   | frame (key toggle : Nat)
   | rep
   | advance (d : Int)
+  | tick (d : Int)          -- the clock moves on, the timer thread has NOT polled yet
+  | poll                    -- one pass of the timer thread, then the process worker drains
 deriving Repr, DecidableEq
 
 /-- after every frame the process worker runs promptly (drain), as the real thread does -/
@@ -195,6 +197,8 @@ def step (s : St) : Ev → St
   | .frame k t => drain (frame s k t 0)
   | .rep => drain (repeatFrame s 0)
   | .advance d => advance s d
+  | .tick d => { s with now := s.now + d }
+  | .poll => drain (pollTimers s)
 
 def run (s : St) (w : List Ev) : St := w.foldl step s
 
